@@ -581,6 +581,13 @@ def check_unit(unit, rlimit=None, seed=None, with_canary=True):
             raise Undecided(f"unit {unit}: frozen functions/labels missing from the assembled unit: {miss}")
     res = run_verus(path, rlimit=rlimit, extra=extra)
     status, fails, notes = classify(res)
+    # a resource-limit hit is retried with larger budgets before the run is declared undecided
+    # (a failing obligation often needs more search than a passing one)
+    budget = rlimit or 10
+    while status == "undecided" and any("tool limit" in n and ("rlimit" in n.lower() or "resource limit" in n.lower()) for n in notes) and budget < 600:
+        budget *= 8
+        res = run_verus(path, rlimit=budget, extra=extra, timeout=1500)
+        status, fails, notes = classify(res)
     if status == "undecided":
         raise Undecided(f"unit {unit}: " + "; ".join(notes))
     failures = []
@@ -593,8 +600,8 @@ def check_unit(unit, rlimit=None, seed=None, with_canary=True):
            "verified": res["json"]["verification-results"].get("verified"), "errors": res["json"]["verification-results"].get("errors"),
            "smt_ms": res["json"].get("times-ms", {}).get("smt", {}).get("smt-run"), "trusted": scan_trusted(text),
            "verus_version": res["json"].get("verus", {}).get("version")}
-    # vacuity canary
-    if with_canary:
+    # vacuity canary (guards green results only: a run that already reports failed obligations is not green)
+    if with_canary and status == "ok":
         casm = assemble(unit, canary=True)
         cpath = os.path.join(BUILD, unit + "_canary.rs")
         with open(cpath, "w") as f:
